@@ -602,6 +602,14 @@ def sortKeys (env : Env) (mapping : Bool) (key : Text) : List Val → St → Res
     | (.ret v, st') => (.ret v, st')
     | (.oom, st') => (.oom, st')
 
+/-- the order `list.sort(key=…)` gives the decorated elements: those with a real key stably by key; those whose key is
+`_Smallest` (None, missing, a callable that raised) in front of them — in the reverse of their original order, which is
+what CPython's sort does with a marker that is "less than" everything including itself (sequences shorter than 64
+elements: one insertion-sorted run; the mutual order of these elements is not specified by the documentation) -/
+def sortDec (dec : List (SKey × Val)) : List (SKey × Val) :=
+  (dec.filter (fun d => d.1 == .smallest)).reverse ++
+  (dec.filter (fun d => !(d.1 == .smallest))).mergeSort (fun a b => SKey.le a.1 b.1)
+
 /-- `sort_sequence` (one key, default comparison, ascending): a stable sort by key -/
 def sortPart (env : Env) (o : InOpts) (x : InXOpts) (items : List Val) (st : St) : Res (List Val) × St :=
   match x.sortKey with
@@ -610,7 +618,7 @@ def sortPart (env : Env) (o : InOpts) (x : InXOpts) (items : List Val) (st : St)
     (match sortKeys env o.mapping k items st with
      | (.ok dec, st') =>
        if decide (dec.length ≥ 2) && !sortable (dec.map (·.1)) then (.raise ⟨"TypeError".toList, []⟩, st')
-       else (.ok ((dec.mergeSort (fun a b => SKey.le a.1 b.1)).map (·.2)), st')
+       else (.ok ((sortDec dec).map (·.2)), st')
      | (.raise e, st') => (.raise e, st')
      | (.ret v, st') => (.ret v, st')
      | (.oom, st') => (.oom, st'))
@@ -621,10 +629,18 @@ def arrange (env : Env) (o : InOpts) (x : InXOpts) (items : List Val) (st : St) 
   | (.ok xs, st') => (.ok (if x.reverse then xs.reverse else xs), st')
   | r => r
 
+/-- what the name of a named sequence stands for inside the loop: `cache = {name: sequence}` holds the sequence after
+`sequence_ensure_subscription` — for a mapping that is a wrapper around the iteration over its keys (a sequence of the
+keys: no longer a mapping), every other sequence of the model is kept as it is -/
+def seqCacheVal (v : Val) : Val :=
+  match v with
+  | .dict kvs => .list (kvs.map fun kv => Val.str kv.1)
+  | v => v
+
 /-- the cache of a sequence found by name: `{name: sequence}` below the sequence variables -/
 def cacheOf (src : Src) (v : Val) : List Frame :=
   match src with
-  | .name n => [Frame.dict [(n, v)]]
+  | .name n => [Frame.dict [(n, seqCacheVal v)]]
   | .expr _ => []
 
 /-- the window and parameters of a batched rendering: `first` = start - 1 and `stop` = end (0-based, exclusive) -/
@@ -1124,7 +1140,7 @@ def renderBlk (env : Env) : Nat → Blk → St → Res (List Piece) × St
           | some xs =>
             let sv : SeqVars := { items := xs, mapping := o.mapping, prefix_ := o.prefix_ }
             let cache : List Frame := match src with
-              | .name n => [Frame.dict [(n, v)]]
+              | .name n => [Frame.dict [(n, seqCacheVal v)]]
               | .expr _ => []
             let (r, st2) := inLoop env fuel sv o body 0 { st' with stack := (Frame.seq sv :: cache) ++ st'.stack }
             let st3 := { st2 with stack := st2.stack.drop (Frame.seq sv :: cache).length }
